@@ -43,19 +43,20 @@ def check_program(L: harness.Loaded, prog: Dict[str, Any], part: Part, bk: str) 
             continue
         pdu, exc, ov = harness.odx_encode(msg, values, prog.get("request"))
         if exc is not None:
-            # over-rejection of a representable value is recorded, not judged (no listed property forbids it)
+            # over-rejection of a representable value is recorded, not judged (no listed property forbids it);
+            # the decode direction below is still checked on the reference-built PDU
             part.count("odxtools_refuses_valid")
             part.add("refusal_classes", f"{tag}:{type(exc).__name__}")
-            continue
-        part.count("compared")
-        part.add("nontrivial", digest((prog["tags"], ref_pdu.hex())))
-        if pdu != ref_pdu:
-            part.violation(f"C02/{tag}/bytes-differ/{bk}", case,
-                           f"odxtools {pdu.hex()} reference {ref_pdu.hex()} for {show(values)}")
-            continue
-        if bool(ov) != bool(e.overlap):
-            part.violation(f"C02/{tag}/overlap-warning-{'missing' if e.overlap else 'spurious'}/{bk}", case,
-                           f"reference overlap={e.overlap}, warnings={ov[:1]}")
+        else:
+            part.count("compared")
+            part.add("nontrivial", digest((prog["tags"], ref_pdu.hex())))
+            if pdu != ref_pdu:
+                part.violation(f"C02/{tag}/bytes-differ/{bk}", case,
+                               f"odxtools {pdu.hex()} reference {ref_pdu.hex()} for {show(values)}")
+                continue
+            if bool(ov) != bool(e.overlap):
+                part.violation(f"C02/{tag}/overlap-warning-{'missing' if e.overlap else 'spurious'}/{bk}", case,
+                               f"reference overlap={e.overlap}, warnings={ov[:1]}")
         if e.overlap:
             continue  # overwritten bits: the decode expectation is meaningless
         dec, dexc = harness.odx_decode(msg, ref_pdu)
